@@ -289,6 +289,7 @@ func child(in, out string) {
 			}
 		}
 	}
+	afterEveryMalformed(append(append([]stmts.Stmt{}, bad...), tailMalformed()...), progress)
 	// token soup: termination and the iff-clause on arbitrary lexeme sequences
 	var lex []string
 	for _, s := range append(append([]stmts.Stmt{}, good[:10]...), bad[:20]...) {
@@ -324,4 +325,124 @@ func checkSoup(text string) {
 				Case: map[string]any{"text": text}, Observe: map[string]any{"strict_fails": sf, "recovery_errors": fmt.Sprint(errs)}})
 		}
 	}
+}
+
+// afterEveryMalformed: the two-segment inputs <<malformed, well-formed>> of StmtLoop.tla, not drawn but enumerated over
+// the whole malformed pool - whatever a failed statement left behind in the parser (a clause parsed and not yet
+// attached, a counter, a mode) must not reach the statement after it.  The second segment is one statement of each
+// kind that has its own entry into the parser.
+func afterEveryMalformed(bad []stmts.Stmt, progress func(string)) {
+	probes := []string{
+		"SELECT pa FROM pt WHERE pb = 1",
+		"SELECT pa FROM pt UNION SELECT pb FROM pu",
+		"INSERT INTO pt (pa) VALUES (1)",
+		"UPDATE pt SET pa = 1 WHERE pb = 2",
+		"DELETE FROM pt WHERE pa = 1",
+		"WITH pc AS (SELECT pa FROM pt) SELECT pa FROM pc",
+	}
+	var want []string
+	for _, p := range probes {
+		tree, err := gosqlx.Parse(p)
+		if err != nil || len(tree.Statements) != 1 {
+			core.Fatalf("probe statement rejected: %s: %v", p, err)
+		}
+		want = append(want, project.String(tree.Statements[0]))
+		ast.ReleaseAST(tree)
+	}
+	per := 3
+	if tier == "thorough" {
+		per = len(probes)
+	}
+	for bi, b := range bad {
+		for j := 0; j < per; j++ {
+			pi := (bi + j) % len(probes)
+			text := b.SQL + ";\n" + probes[pi]
+			progress(text)
+			trees, _, errs := recover1(text)
+			run.Eval(1)
+			run.Nontrivial("aem\x00" + text)
+			if len(trees) != 1 || len(errs) != 1 || trees[0] != want[pi] {
+				sig := "recovery-tree-differs-from-strict|after-malformed"
+				if len(trees) != 1 {
+					sig = "recovery-statement-count|after-malformed"
+				} else if len(errs) != 1 {
+					sig = "recovery-error-count|after-malformed"
+				}
+				var got any = trees
+				if len(trees) == 1 {
+					got = trees[0]
+				}
+				run.Violate(core.Violation{Sig: sig, Clause: "recovery returns precisely the trees strict parsing gives for the well-formed statements",
+					Case: map[string]any{"text": text, "origins": []string{b.Origin, "probe"}}, Observe: map[string]any{"trees": got, "errors": fmt.Sprint(errs)}, Expect: want[pi]})
+			}
+		}
+	}
+	run.Extra["after_every_malformed_scripts"] = len(bad) * per
+}
+
+// tailMalformed: malformed statements that CONTAIN statement keywords (a WITH clause, INSERT ... SELECT, a view, a set
+// operation, sub-queries - the pools exclude them because resynchronisation may stop at an inner keyword).  Such a
+// statement is a usable first segment when it breaks after its last inner keyword: a parser that reads left to right
+// cannot fail before the first lexeme that differs from a well-formed statement, so nothing but the separator is left
+// to resynchronise on.
+func tailMalformed() []stmts.Stmt {
+	bases := []string{
+		"WITH c AS (SELECT a FROM t) SELECT a FROM c WHERE a = 1",
+		"WITH c AS (SELECT 1), d AS (SELECT 2) SELECT a FROM c",
+		"WITH c (x) AS (SELECT 1) INSERT INTO t (a) VALUES (1)",
+		"WITH c AS (SELECT 1) UPDATE t SET a = 1 WHERE b = 2",
+		"WITH c AS (SELECT 1) DELETE FROM t WHERE a = 1",
+		"WITH RECURSIVE c AS (SELECT 1 UNION ALL SELECT 2) SELECT a FROM c",
+		"INSERT INTO t (a) SELECT a FROM u WHERE a = 1",
+		"CREATE VIEW v AS SELECT a FROM t WHERE a = 1",
+		"SELECT a FROM t UNION SELECT b FROM u ORDER BY 1",
+		"SELECT a FROM (SELECT b FROM u) s WHERE a = 1",
+		"SELECT a FROM t WHERE b IN (SELECT c FROM u) AND d = 1",
+		"SELECT a, (SELECT MAX(b) FROM u) AS m FROM t",
+		"MERGE INTO t USING u ON t.a = u.a WHEN MATCHED THEN UPDATE SET a = 1",
+		"INSERT INTO t (a) VALUES (1) ON CONFLICT (a) DO UPDATE SET a = 2",
+	}
+	poison := []string{")", ",", "x", "42", "FROM", "="}
+	seen := map[string]bool{}
+	var out []stmts.Stmt
+	// k: the first lexeme that differs from the well-formed statement (a parser that reads left to right cannot fail
+	// before it)
+	add := func(lex []string, k int, origin string) {
+		sql := strings.Join(lex, " ")
+		if len(lex) == 0 || seen[sql] {
+			return
+		}
+		seen[sql] = true
+		for i := k; i < len(lex); i++ {
+			if i > 0 && stmts.IsStartKeyword(lex[i]) {
+				return
+			}
+		}
+		tree, err := gosqlx.Parse(sql + " ;")
+		if err == nil {
+			ast.ReleaseAST(tree)
+			return
+		}
+		out = append(out, stmts.Stmt{SQL: sql, Origin: "tail:" + origin, NTok: len(lex)})
+	}
+	for _, b := range bases {
+		tree, err := gosqlx.Parse(b)
+		if err != nil {
+			core.Fatalf("base statement rejected: %s: %v", b, err)
+		}
+		ast.ReleaseAST(tree)
+		lex := stmts.Lexemes(b)
+		for k := 1; k < len(lex); k++ {
+			add(lex[:k], k, "truncate@"+fmt.Sprint(k))
+			add(append(append([]string{}, lex[:k]...), lex[k+1:]...), k, "delete@"+fmt.Sprint(k))
+			for _, p := range poison {
+				add(append(append(append([]string{}, lex[:k]...), p), lex[k+1:]...), k, "replace@"+fmt.Sprint(k))
+			}
+		}
+	}
+	if len(out) < 100 {
+		core.Fatalf("only %d tail-malformed segments", len(out))
+	}
+	run.Extra["tail_malformed_segments"] = len(out)
+	return out
 }
